@@ -248,6 +248,17 @@ func ruleLiteralMarker(c *Ctx, rule string) {
 					s = apply(s, func(x st) st { return x | 2 })
 				case "(*ContinuationRequest).Wait":
 					s = apply(s, func(x st) st { return x | 4 })
+				default:
+					// a helper that flushes and waits: what its success guarantees
+					if h := staticCallee(call); h != nil && inModule(h) {
+						sum := okSummary(h)
+						if sum.has("ok:(*Encoder).CRLF") {
+							s = apply(s, func(x st) st { return x | 2 })
+						}
+						if sum.has("ok:(*ContinuationRequest).Wait") {
+							s = apply(s, func(x st) st { return x | 4 })
+						}
+					}
 				}
 			}
 			return s, s != 0
@@ -306,6 +317,7 @@ func ruleLiteralMarker(c *Ctx, rule string) {
 		}
 		return f.with(add...)
 	})
+	pos := fn.Pos()
 	okPlus := len(plusCalls) == 1
 	for _, pc := range plusCalls {
 		fs, _ := gf.at(pc)
@@ -313,8 +325,115 @@ func ruleLiteralMarker(c *Ctx, rule string) {
 			okPlus = false
 		}
 	}
-	pos := fn.Pos()
-	if len(plusCalls) > 0 {
+	// the prefix may be written by a helper that takes the decision as a
+	// boolean parameter: the '+' is then written under that parameter, and the
+	// argument is true only when sync == nil on the client side
+	if len(plusCalls) == 0 {
+		var implies func(v ssa.Value, at facts, seen map[ssa.Value]bool) bool
+		implies = func(v ssa.Value, at facts, seen map[ssa.Value]bool) bool {
+			if seen[v] {
+				return true
+			}
+			seen[v] = true
+			switch x := v.(type) {
+			case *ssa.Const:
+				if x.Value != nil && x.Value.String() == "false" {
+					return true
+				}
+				return at.has("sync-nil") && at.has("client-side")
+			case *ssa.BinOp:
+				if x.Op == token.EQL {
+					if r, ok := loadedField(x.X); ok && r.is("Encoder", "side") {
+						if k, ok := constInt(x.Y); ok && k == 1 {
+							return at.has("sync-nil")
+						}
+					}
+					if (paramOf(x.X) == syncParam || x.X == ssa.Value(syncParam)) && isNilConst(x.Y) {
+						return at.has("client-side")
+					}
+				}
+			case *ssa.Phi:
+				for k, e := range x.Edges {
+					pred := x.Block().Preds[k]
+					pf, reach := gf.atEnd(pred)
+					if !reach {
+						continue
+					}
+					for j, sc := range pred.Succs {
+						if sc == x.Block() {
+							add := valueEdgeFacts(pred, j)
+							for _, a := range edgeAtoms(pred, j) {
+								if (paramOf(a.V) == syncParam || a.V == ssa.Value(syncParam)) && a.Nil == 1 {
+									add = append(add, "sync-nil")
+								}
+								if r, ok := loadedField(a.V); ok && r.is("Encoder", "side") && a.Const != nil && a.Op == token.EQL {
+									if kk, ok := constInt(a.Const); ok && kk == 1 {
+										add = append(add, "client-side")
+									}
+								}
+							}
+							pf = pf.with(add...)
+						}
+					}
+					if !implies(e, pf, seen) {
+						return false
+					}
+				}
+				return true
+			}
+			return false
+		}
+		nPlus := 0
+		okH := true
+		allInstrs(fn, func(i ssa.Instruction) {
+			call, ok := i.(*ssa.Call)
+			if !ok {
+				return
+			}
+			h := staticCallee(call)
+			if h == nil || h == fn || !inModule(h) || h.Blocks == nil {
+				return
+			}
+			allInstrs(h, func(j ssa.Instruction) {
+				pc, ok := j.(*ssa.Call)
+				if !ok || callKey(pc) != "(*Encoder).writeString" || len(pc.Call.Args) != 2 {
+					return
+				}
+				if sv, ok := constString(pc.Call.Args[1]); !ok || sv != "+" {
+					return
+				}
+				nPlus++
+				pos = pc.Pos()
+				// guarded by a boolean parameter of h
+				hf := mustFlow(h, facts{}, nil, func(f facts, b *ssa.BasicBlock, s int) facts {
+					for _, a := range edgeAtoms(b, s) {
+						if pr, ok := a.V.(*ssa.Parameter); ok && a.True == 1 {
+							f = f.with("param:" + pr.Name())
+						}
+					}
+					return f
+				})
+				hfs, _ := hf.at(pc)
+				guarded := false
+				for k, pr := range h.Params {
+					if hfs.has("param:"+pr.Name()) && k < len(call.Call.Args) {
+						at, _ := gf.at(call)
+						if implies(call.Call.Args[k], at, map[ssa.Value]bool{}) {
+							guarded = true
+						}
+					}
+				}
+				if !guarded {
+					okH = false
+				}
+			})
+		})
+		if nPlus == 1 && okH {
+			okPlus = true
+			plusCalls = append(plusCalls, nil)
+		}
+	}
+	if len(plusCalls) > 0 && plusCalls[0] != nil {
 		pos = plusCalls[0].Pos()
 	}
 	c.check(okPlus, rule, "Encoder.Literal: '+' only when non-synchronising on the client", pos,
